@@ -65,10 +65,12 @@ def refusals_before_write(F, S):
     else:
         out.append(bad("R-MUSTCALL", inst, rh.loc(rh.body), rh.qn, "a header whose tags are not RIFF / WAVE is refused, for every input", "found: %s" % tags))
     cw = F.fn(CLM + "::CompareWaveFormats", nparams=2)
-    mc = [nd for nd in cw.nodes if nd["k"] in CALLS and nd.get("fname") == "memcmp"]
+    from ..through import with_lambdas
+    mcs = [(f_, nd) for f_ in with_lambdas(F, cw) for nd in f_.nodes if nd["k"] in CALLS and nd.get("fname") == "memcmp"]
+    mc = [nd for (_f, nd) in mcs]
     rec = F.record(AR + "WaveFormatEx")
     inst = CLM + "::CompareWaveFormats#whole-record"
-    if len(mc) == 1 and cw.term(mc[0]["args"][2]) == ("const", rec["size_bits"] // 8):
+    if len(mc) == 1 and mcs[0][0].term(mc[0]["args"][2]) == ("const", rec["size_bits"] // 8):
         out.append(ok("R-SIB", inst, cw.loc(mc[0]["id"]), cw.qn, "formats are compared over the whole %d-byte record against the first input's" % (rec["size_bits"] // 8), "memcmp(&f[0], &f[i], sizeof(WaveFormatEx))"))
     else:
         out.append(bad("R-SIB", inst, cw.loc(cw.body), cw.qn, "formats are compared over the whole %d-byte record against the first input's" % (rec["size_bits"] // 8), "shape not found"))
